@@ -446,14 +446,15 @@ def run(ctx):
         "runs natively on them; lifted predicates fork (positive domain: no zero forks). The returned scale factor is a SymPy expression; "
         "for every published equation of the module in which arguments (named by the decorator symbols or by the .subs dictionaries of the "
         "body) and result give a total substitution, z3 decides |residual| > 1e-9 * sum|terms| over ALL magnitudes: unsat = the function "
-        "returns a solution of its law for every input of the domain. Abs()/ceiling() results are judged on their argument.")
+        "returns a solution of its law for every input of the domain. Abs()/ceiling() results are judged on their argument. Vector laws offered solved for "
+        "different unknowns (<x>_law / <y>_law pairs) are composed on symbolic 3-vectors and z3 decides that they are mutual inverses.")
     ctx.functions_encoded = ["every calculate_* of the catalogue that survives lifted execution (counted in coverage)", "quantity_decorator.validate_input/validate_output",
                              "Quantity.__init__", "convert.convert_to_float"]
     ctx.stubs = list(lift.STANDARD_STUBS) + ["float() in core.convert -> identity on symbolic reals", "Quantity._eval_is_positive -> scale_factor.is_positive for symbolic quantities (the original answers False when float() fails, flipping sqrt signs)"]
     ctx.bounds = ["all magnitudes in the positive domain (quick); plus all real magnitudes (thorough)", "scalar Quantity / float parameters; sequences, vectors, integers: unencoded",
                   "algebraic laws with a total symbol mapping; differential/integral/sum laws: unencoded", f"z3 timeout {TIMEOUT_MS} ms, call limit {CALL_TIMEOUT} s"]
     ctx.outside = ["unit choice is covered by construction: only the scale factor reaches the body (C05/C07 decide the reduction to scale factors)", "float rounding below 1e-9 relative",
-                   "vector laws offered in two solved forms (mutual inverses) are not covered in this revision"]
+                   "vector laws: only pairs of *_law functions that take each other's result with otherwise identical parameters are paired (others listed unencoded)"]
     ctx.trusted = ["z3 nlsat", "SymPy solve/subs are executed as part of the code under test", "Sym2SMT translator", "C01 (homogeneity) for the unit-system independence of the residual"]
     res = pmap(check_function, items, chunk=2)
     n_run = 0
@@ -471,5 +472,7 @@ def run(ctx):
         else:
             ctx.violation(f"C02:{r['name']}", f"{r['name']}: {r['why']} (mapping {r.get('par2sym')}, returned {r.get('result')})",
                           REPLAY.format(item=tuple(r["item"]), vals=r.get("vals") or {}, ename=r.get("ename"), magnitude=r.get("magnitude", False)))
+    from checks import c02_vectors
+    c02_vectors.run(ctx, TIMEOUT_MS)
     ctx.extra["calculate_functions"] = len(funcs)
     ctx.extra["functions_decided"] = n_run
